@@ -48,6 +48,7 @@ RANGE_CONTAINS = "core::ops::RangeInclusive::<Idx>::contains"
 RANGE_NEW = "core::ops::RangeInclusive::<Idx>::new"
 IS_NAN = "core::f64::<impl f64>::is_nan"
 IS_FINITE = "core::f64::<impl f64>::is_finite"
+IS_SIGN_POSITIVE = "core::f64::<impl f64>::is_sign_positive"
 IS_VALID = "TwoFloat::is_valid"     # is_finite(hi) && is_finite(lo) && no_overlap(hi, lo): rule R17; the link below is proved as R12v
 OPT_EQ = "<core::option::Option<T> as core::cmp::PartialEq>::eq"
 
@@ -587,6 +588,13 @@ def feasible_vs_const(env, x, c, kind, domain):
             if ok:
                 out.append(r)
         return tuple(out)
+    if kind == "f64":
+        # a known sign bit bounds the number: sign positive => x >= 0 (or NaN), sign negative => x <= 0 (or NaN)
+        sp = env.val.get(("bool", mk("call", IS_SIGN_POSITIVE, x)))
+        if sp is True and (lo is None or lo < 0.0):
+            lo, lo_strict = 0.0, False
+        if sp is False and (hi is None or hi > 0.0):
+            hi, hi_strict = 0.0, False
     isnan_known = env.val.get(("bool", mk("call", IS_NAN, x)))
     if isnan_known is None and tag(x) == "field" and x[2] in (0, 1):
         # a word of a TwoFloat that is ordered against another TwoFloat is not NaN (partial_cmp screens NaN words first: C06 / R12b)
@@ -704,6 +712,22 @@ def eval_bool(c, env):
         return (dn == "eq") if c[1] == IS_INFINITE else (dn == "gt")
     v = ("bool", c)
     if v not in env.val:
+        if t == "call" and c[1] == IS_SIGN_POSITIVE and len(c) == 3:
+            # the sign bit of a number known to lie strictly on one side of zero (x > k >= 0, x < k <= 0, x == k != 0)
+            for var, r in env.val.items():
+                if var[0] == "rel" and var[3] == "f64" and r != "un":
+                    if var[1] is c[2] and tag(var[2]) == "const":
+                        k, rr = f64v(var[2]), r
+                    elif var[2] is c[2] and tag(var[1]) == "const":
+                        k, rr = f64v(var[1]), FLIP[r]
+                    else:
+                        continue
+                    if k != k:
+                        continue
+                    if (rr == "gt" and k >= 0.0) or (rr == "eq" and k > 0.0):
+                        env.val[v] = True; return True
+                    if (rr == "lt" and k <= 0.0) or (rr == "eq" and k < 0.0):
+                        env.val[v] = False; return False
         if t == "call" and c[1] == IS_NAN and len(c) == 3:
             # decided by any relation already assumed between the operand and a (non-NaN) constant
             for var, r in env.val.items():
